@@ -228,6 +228,9 @@ def check_weights(REC, bct, A, W, directed):
                 ok, Ew = call(REC, PROP, 'efficiency_wei', bct.efficiency_wei, W)
                 if ok:
                     REC.check(PROP, 'efficiency_wei', 'global', close(Ew, mean_offdiag(inv), rtol=1e-10), {'W': W, 'got': Ew})
+                ok, Ew = call(REC, PROP, 'efficiency_wei', bct.efficiency_wei, W, 'global')
+                if ok:
+                    REC.check(PROP, 'efficiency_wei', 'global', np.ndim(Ew) == 0 and close(Ew, mean_offdiag(inv), rtol=1e-10), {'W': W, 'got': Ew, 'local': 'global'})
             if tr == 'inv' and directed:
                 ok, Ew = call(REC, PROP, 'efficiency_wei', bct.efficiency_wei, W)
                 if ok:
